@@ -37,6 +37,7 @@ func newInputString(s string) *inputString {
 }
 
 func (i *inputString) nextCodePoint() rune {
+	verifCursor()
 	i.pointer++
 	if i.pointer >= i.length {
 		i.eof = true
